@@ -142,16 +142,19 @@ thread_local! {
     pub static CONSISTENT: std::cell::Cell<bool> = std::cell::Cell::new(false);
     /// zero-payload mode: every written state is (0, 0, 0) and the two commands are Position(0) and
     /// Velocity(0) - payloads that coincide with what placeholder / sentinel data look like
-    pub static ZERO: std::cell::Cell<bool> = std::cell::Cell::new(false);
+    pub static ZERO: std::cell::Cell<u8> = std::cell::Cell::new(0);
 }
 fn cmd_for(is_a: bool) -> Command {
-    if ZERO.with(|c| c.get()) {
-        return if is_a { Command::Position(0.0) } else { Command::Velocity(0.0) };
+    match ZERO.with(|c| c.get()) {
+        0 => {}
+        1 => return if is_a { Command::Position(0.0) } else { Command::Velocity(0.0) },
+        2 => return if is_a { Command::Velocity(0.0) } else { Command::Position(0.0) },
+        _ => return if is_a { Command::Acceleration(0.0) } else { Command::Position(-0.0) },
     }
     if is_a { CA } else { CB }
 }
 fn state_for(kind: Kind, i: usize, is_a: bool) -> State {
-    if ZERO.with(|c| c.get()) {
+    if ZERO.with(|c| c.get()) != 0 {
         return State::new_raw(0.0, 0.0, 0.0);
     }
     if !CONSISTENT.with(|c| c.get()) {
@@ -555,7 +558,7 @@ pub fn describe(kind: Kind, mask: u32, rounds: &[Vec<usize>], mode: Mode) -> Str
         "{:?} connected-mask {:#b}{} rounds [{}]",
         kind,
         mask,
-        format!("{}{}", xenv_show(), if ZERO.with(|c| c.get()) { " [zero payloads: states (0,0,0), commands A = Position(0), B = Velocity(0)]" } else if CONSISTENT.with(|c| c.get()) { " [consistent values: every written state is the terminal's member of a tuple satisfying the constraint exactly]" } else { "" }),
+        format!("{}{}", xenv_show(), if ZERO.with(|c| c.get()) != 0 { [" [zero payloads: states (0,0,0), commands A = Position(0), B = Velocity(0)]", " [zero payloads: states (0,0,0), commands A = Velocity(0), B = Position(0)]", " [zero payloads: states (0,0,0), commands A = Acceleration(0), B = Position(-0)]"][ZERO.with(|c| c.get()) as usize - 1] } else if CONSISTENT.with(|c| c.get()) { " [consistent values: every written state is the terminal's member of a tuple satisfying the constraint exactly]" } else { "" }),
         rounds
             .iter()
             .enumerate()
@@ -817,6 +820,16 @@ fn explore_consistent(e1: &mut Eng, e2: &mut Eng, kinds2: &[Kind], deep: bool, t
 }
 /// The same loop for the consistent-values mode (zero = false) and the zero-payload mode (zero = true).
 fn explore_flagged(e1: &mut Eng, e2: &mut Eng, kinds2: &[Kind], deep: bool, mode: Mode, zero: bool, time_only: bool, budget: Budget) {
+    if zero && mode == Mode::Command {
+        // every assignment of the zero commands to the two roles (the "old" option is always B)
+        for z in 1..=3u8 {
+            explore_flagged_z(e1, e2, kinds2, deep, mode, z, time_only, budget);
+        }
+        return;
+    }
+    explore_flagged_z(e1, e2, kinds2, deep, mode, if zero { 1 } else { 0 }, time_only, budget)
+}
+fn explore_flagged_z(e1: &mut Eng, e2: &mut Eng, kinds2: &[Kind], deep: bool, mode: Mode, zero: u8, time_only: bool, budget: Budget) {
     let mut jobs1: Vec<(Kind, u32, usize)> = Vec::new();
     let mut jobs2: Vec<(Kind, u32, usize)> = Vec::new();
     for &k in kinds2 {
@@ -851,8 +864,8 @@ fn explore_flagged(e1: &mut Eng, e2: &mut Eng, kinds2: &[Kind], deep: bool, mode
             let (kind, mask, depth) = jobs[j];
             let n = kind.n();
             let per_round = ipow(NOPT as u64, n);
-            if zero {
-                ZERO.with(|c| c.set(true));
+            if zero != 0 {
+                ZERO.with(|c| c.set(zero));
             } else {
                 CONSISTENT.with(|c| c.set(true));
             }
@@ -873,7 +886,7 @@ fn explore_flagged(e1: &mut Eng, e2: &mut Eng, kinds2: &[Kind], deep: bool, mode
                 e.transitions += judge_rounds(kind, mask, &rounds, mode, time_only, e);
             }
             CONSISTENT.with(|c| c.set(false));
-            ZERO.with(|c| c.set(false));
+            ZERO.with(|c| c.set(0));
         });
     }
 }
@@ -1373,7 +1386,7 @@ fn command_engines(ctx: &Ctx, time_only: bool, tag: &str) -> Vec<Eng> {
         explore_flagged(&mut e1, &mut scratch, &kinds, false, Mode::Command, true, time_only, budget);
         TIME_SPLIT.store(false, std::sync::atomic::Ordering::SeqCst);
         e1.merge(scratch);
-        e1.notes.push("zero-payload pass: the same round sequences (2-terminal devices and Axle<1,2> depth 2, Axle<3,4> depth 1, differentials depth 2) with the two commands Position(0) and Velocity(0), once with ordinary timestamps and once with the oldest timestamp equal to i64::MIN and the newer ones just below i64::MAX: a command that looks like a placeholder (zero value, i64::MIN stamp) is a command and must be relayed".into());
+        e1.notes.push("zero-payload pass: the same round sequences (2-terminal devices and Axle<1,2> depth 2, Axle<3,4> depth 1, differentials depth 2) with the two commands drawn from {Position(0), Velocity(0), Acceleration(0), Position(-0)} in three role assignments, once with ordinary timestamps and once with the oldest timestamp equal to i64::MIN and the newer ones just below i64::MAX: a command that looks like a placeholder (zero value, i64::MIN stamp) is a command and must be relayed".into());
     }
     // commands in the presence of states (24 cross-kind environments)
     {
